@@ -24,7 +24,7 @@ Open Scope Z_scope.
 
 (* documented behaviour: (True, A sorted by variable), (False, None), RuntimeError *)
 Theorem C20_solve_stdout_spec : forall c solver rest sameas installed world i lines last,
-  split_ws c = solver :: rest ->
+  sv_split_ws c = solver :: rest ->
   lookup (match sameas with Some s => s | None => solver end) solver_table = Some i ->
   installed solver = true -> i <> FileinFileout ->
   world i c = render_text lines last -> wf_text lines last ->
@@ -39,7 +39,7 @@ Print Assumptions C20_solve_stdout_spec.
 
 (* the code as it is: the same, provided a SAT answer spells a non-empty assignment *)
 Theorem C20_solve_stdout_partial : forall c solver rest sameas installed world i lines last,
-  split_ws c = solver :: rest ->
+  sv_split_ws c = solver :: rest ->
   lookup (match sameas with Some s => s | None => solver end) solver_table = Some i ->
   installed solver = true -> i <> FileinFileout ->
   world i c = render_text lines last -> wf_text lines last ->
@@ -59,7 +59,7 @@ Definition d22_lines : list (oline * bool) :=
   [(LOther (txt "c a comment"), false); (LStatus [SP] t_SATISFIABLE [], false); (LValues [([SP], (t_0, 0))] [], false)].
 Theorem C20_solve_empty_witness_refuted :
   exists c sameas installed world i lines last,
-    split_ws c = [c] /\ lookup c solver_table = Some i /\ installed c = true /\ i <> FileinFileout /\
+    sv_split_ws c = [c] /\ lookup c solver_table = Some i /\ installed c = true /\ i <> FileinFileout /\
     world i c = render_text lines last /\ wf_text lines last /\
     final_status (all_lines lines last) None = Some true /\
     sameas = None /\
@@ -81,30 +81,30 @@ Print Assumptions C20_witness_sorted_and_satisfying.
 
 (* ---------- the minisat convention (result file) ---------- *)
 Theorem C20_solve_minisat_sat_spec : forall c solver rest sameas installed world lead items trail,
-  split_ws c = solver :: rest ->
+  sv_split_ws c = solver :: rest ->
   lookup (match sameas with Some s => s | None => solver end) solver_table = Some FileinFileout ->
   installed solver = true ->
   world FileinFileout c = lead ++ t_SAT ++ join (item_texts items) ++ trail ->
   allspace lead ->
-  (forall x, In x items -> sep_ok (fst x) /\ parse_int (fst (snd x)) = Some (snd (snd x))) -> allspace trail ->
+  (forall x, In x items -> sep_ok (fst x) /\ sv_parse_int (fst (snd x)) = Some (snd (snd x))) -> allspace trail ->
   solve spec (Some c) sameas installed world = PyPair true (Some (sort_abs (kept (map snd items)))).
 Proof. exact solve_minisat_spec. Qed.
 Print Assumptions C20_solve_minisat_sat_spec.
 
 Theorem C20_solve_minisat_sat_partial : forall c solver rest sameas installed world lead items trail,
-  split_ws c = solver :: rest ->
+  sv_split_ws c = solver :: rest ->
   lookup (match sameas with Some s => s | None => solver end) solver_table = Some FileinFileout ->
   installed solver = true ->
   world FileinFileout c = lead ++ t_SAT ++ join (item_texts items) ++ trail ->
   allspace lead ->
-  (forall x, In x items -> sep_ok (fst x) /\ parse_int (fst (snd x)) = Some (snd (snd x))) -> allspace trail ->
+  (forall x, In x items -> sep_ok (fst x) /\ sv_parse_int (fst (snd x)) = Some (snd (snd x))) -> allspace trail ->
   kept (map snd items) <> [] ->
   solve as_is (Some c) sameas installed world = PyPair true (Some (sort_abs (kept (map snd items)))).
 Proof. exact solve_minisat_as_is. Qed.
 Print Assumptions C20_solve_minisat_sat_partial.
 
 Theorem C20_solve_minisat_unsat : forall q c solver rest sameas installed world lead trail,
-  split_ws c = solver :: rest ->
+  sv_split_ws c = solver :: rest ->
   lookup (match sameas with Some s => s | None => solver end) solver_table = Some FileinFileout ->
   installed solver = true ->
   world FileinFileout c = lead ++ t_UNSAT ++ trail -> allspace lead -> starts_space trail ->
@@ -130,13 +130,13 @@ Proof. exact solve_sameas_unsupported. Qed.
 Print Assumptions C20_unknown_sameas.
 
 Theorem C20_unsupported_command : forall q c solver rest installed world,
-  split_ws c = solver :: rest -> supported solver = false ->
+  sv_split_ws c = solver :: rest -> supported solver = false ->
   solve q (Some c) None installed world = PyRuntimeError.
 Proof. exact solve_unsupported_command. Qed.
 Print Assumptions C20_unsupported_command.
 
 Theorem C20_solver_not_installed : forall q c solver rest sameas installed world i,
-  split_ws c = solver :: rest ->
+  sv_split_ws c = solver :: rest ->
   lookup (match sameas with Some s => s | None => solver end) solver_table = Some i ->
   installed solver = false ->
   solve q (Some c) sameas installed world = PyRuntimeError.
@@ -169,7 +169,7 @@ Print Assumptions C20_first_installed_is_first.
 
 (* a command: the interface of `sameas` if given, else of the command's first word *)
 Theorem C20_command_interface : forall q c solver rest sameas installed world name i,
-  split_ws c = solver :: rest ->
+  sv_split_ws c = solver :: rest ->
   name = match sameas with Some s => s | None => solver end ->
   lookup name solver_table = Some i ->
   sat_solve q (Some c) sameas installed world =
